@@ -22,6 +22,7 @@ type Profile struct {
 	NoSentinelStr bool              // exclude only the sentinel strings (known finding KF-C06-sentinel-strings)
 	VeryLongStr   bool              // also generate 1300-3900 byte strings (documented maximum "a little less than 4KB")
 	NoNullIndexed bool              // NULL only in columns without an index (known finding KF-C06-null-in-indexed-column)
+	FlipPct       int               // share of predicate leaves written with the constant on the left ("3 < a")
 	OnExcluded    func(name string) // called when a draw was redirected because of a known-finding exclusion
 }
 
@@ -182,7 +183,9 @@ var cmps = []string{"=", "<>", "<", "<=", ">", ">="}
 
 func leaf(t *rapid.T, def *dbh.TableDef, base Profile) *dbh.Pred {
 	c := def.Cols[rapid.IntRange(0, len(def.Cols)-1).Draw(t, "pcol")]
-	return dbh.Leaf(c.Name, rapid.SampledFrom(cmps).Draw(t, "cmp"), Value(t, c.T, ColProfile(c, base), "pv"))
+	l := dbh.Leaf(c.Name, rapid.SampledFrom(cmps).Draw(t, "cmp"), Value(t, c.T, ColProfile(c, base), "pv"))
+	l.Flip = base.FlipPct > 0 && rapid.IntRange(0, 99).Draw(t, "flip") < base.FlipPct
+	return l
 }
 
 // boundsOnOneColumn: 2-4 leaves on the same column: redundant, overlapping, contradictory,
@@ -193,6 +196,7 @@ func boundsOnOneColumn(t *rapid.T, def *dbh.TableDef, base Profile) *dbh.Pred {
 	var p *dbh.Pred
 	for i := 0; i < n; i++ {
 		l := dbh.Leaf(c.Name, rapid.SampledFrom([]string{"=", "<", "<=", ">", ">=", ">=", "<=", "<>"}).Draw(t, "bcmp"), Value(t, c.T, ColProfile(c, base), "bv"))
+		l.Flip = base.FlipPct > 0 && rapid.IntRange(0, 99).Draw(t, "bflip") < base.FlipPct
 		if p == nil {
 			p = l
 		} else {
@@ -454,7 +458,9 @@ func JoinQ(t *rapid.T, defs []dbh.TableDef) dbh.JoinQuery {
 		} else {
 			v = Value(t, c.T, Profile{SmallOnly: true}, "fv")
 		}
-		q.Filters = append(q.Filters, dbh.Leaf(d.Name+"."+c.Name, rapid.SampledFrom(cmps).Draw(t, "fcmp"), v))
+		fl := dbh.Leaf(d.Name+"."+c.Name, rapid.SampledFrom(cmps).Draw(t, "fcmp"), v)
+		fl.Flip = rapid.IntRange(0, 3).Draw(t, "fflip") == 0 // constant on the left
+		q.Filters = append(q.Filters, fl)
 	}
 	if rapid.IntRange(0, 3).Draw(t, "star-list") != 0 {
 		n := rapid.IntRange(1, 4).Draw(t, "nsel")
